@@ -348,3 +348,7 @@ def run(ck):
               "what a step stores into the message while it may still be rolled back and re-parsed does not accumulate: a header block "
               "delivered byte by byte re-runs the step once per byte, so an appending store retains memory far beyond the request size limit",
               min_instances=4)
+    ck.borrow("C18", ["C18-R1"], "C03-R11",
+              "the literal matchers compare only bytes that are there: match_raw / match_string test remaining() < len before memcmp / "
+              "strncmp (all typed-header and media-type parsers go through them)",
+              key_pred=lambda k: k.startswith("match_raw") or k.startswith("match_string"), min_instances=4)
